@@ -32,10 +32,10 @@ def where_of(exc):
 
 def err_obs(out):
     if out["o"] == "host":
-        return {"k": "err", "cls": "host:%s@%s" % (out.get("type"), out.get("where"))}
+        return {"k": "err", "cls": "host", "ty": str(out.get("type")), "at": str(out.get("where"))}
     if out["o"] == "jserror":
-        return {"k": "err", "cls": "jserror:%s" % out.get("name")}
-    return {"k": "err", "cls": out["o"]}
+        return {"k": "err", "cls": "jserror", "ty": str(out.get("name")), "at": ""}
+    return {"k": "err", "cls": out["o"], "ty": "", "at": ""}
 
 
 def api_obs(m):
@@ -48,34 +48,34 @@ def api_obs(m):
     return {"k": "m", "i": int(m.index), "g": g}
 
 
-def script_obs(w):
-    """w = wire value of `m === null ? null : [m.index].concat(groups)` built by the script"""
+def script_obs(pair):
+    """pair = wire values of (m, m.index) as the script's exec returned them"""
+    w, wi = pair
     if w["k"] == "null":
         return {"k": "null"}
-    if w["k"] != "arr" or not w["e"] or w["e"][0]["k"] != "num":
-        return {"k": "err", "cls": "shape:" + w["k"]}
-    idx = wire.words_dbl(w["e"][0]["w"])
+    if w["k"] != "arr" or not w["e"] or wi["k"] != "num":
+        return {"k": "err", "cls": "shape", "ty": w["k"], "at": ""}
+    idx = wire.words_dbl(wi["w"])
     if idx != int(idx):
-        return {"k": "err", "cls": "shape:index"}
+        return {"k": "err", "cls": "shape", "ty": "index", "at": ""}
     g = []
-    for e in w["e"][1:]:
+    for e in w["e"]:
         if e["k"] == "undef":
             g.append([-1])
         elif e["k"] == "str":
             g.append(e["u"])
         else:
-            return {"k": "err", "cls": "shape:group:" + e["k"]}
+            return {"k": "err", "cls": "shape", "ty": "group:" + e["k"], "at": ""}
     return {"k": "m", "i": int(idx), "g": g}
 
 
-SCRIPT = ("for (var i = 0; i < S.length; i++) { var m = R.exec(S[i]);"
-          " if (m === null) { __out(i, null); } else { var r = [m.index]; for (var j = 0; j < m.length; j++) { r.push(m[j]); } __out(i, r); } }")
+SCRIPT = "for (var i = 0; i < S.length; i++) { var m = R.exec(S[i]); __out(i, m, m === null ? 0 : m.index); }"
 
 
 def run_script(api, head, subjects, src, flags):
     ctx = api.new_context(time_limit=60.0)
     got = {}
-    ctx.set("__out", lambda i, v: (got.__setitem__(int(i), wire.to_wire(v)), None)[1])
+    ctx.set("__out", lambda i, m, idx: (got.__setitem__(int(i), (wire.to_wire(m), wire.to_wire(idx))), None)[1])
     ctx.set("P", src)
     ctx.set("F", flags)
     ctx.set("S", list(subjects))
@@ -83,7 +83,7 @@ def run_script(api, head, subjects, src, flags):
     if out["o"] != "value":
         e = err_obs(out)
         return [got_obs(got, i, e) for i in range(len(subjects))]
-    return [got_obs(got, i, {"k": "err", "cls": "noresult"}) for i in range(len(subjects))]
+    return [got_obs(got, i, {"k": "err", "cls": "noresult", "ty": "", "at": ""}) for i in range(len(subjects))]
 
 
 def got_obs(got, i, fallback):
@@ -103,7 +103,7 @@ def pattern_driver(case, api):
         r = RegExp(src, flags)
     except Exception as e:          # noqa: BLE001 - classified, judged by the spec
         r = None
-        obs = [{"k": "err", "cls": "host:%s@%s" % (type(e).__name__, where_of(e))}] * len(subjects)
+        obs = [{"k": "err", "cls": "host", "ty": type(e).__name__, "at": where_of(e)}] * len(subjects)
     if r is not None:
         for s in subjects:
             out = api.run(lambda: r.exec(s), wall=60.0, cap=20_000_000)
